@@ -1,8 +1,9 @@
 From Coq Require Import Extraction ExtrOcamlBasic.
-From RV Require Import Storage.Contract Storage.Layout.
+From RV Require Import Storage.Contract Storage.Layout Storage.Shutdown.
 Extraction Language OCaml.
 Extraction "../ocaml/gen/c20_model.ml"
   contract_okb prefix_okb first_bad m_init run_okb
   dl_calculate dl_recalculate dl_num_regions dl_len dl_usable dl_region_base dl_region_layout
   dl_reduce_last dl_norm layout_from_file_len address_range mem_address_range in_layoutb valid_layoutb
-  hrun h_init h_quiescent.
+  hrun h_init h_quiescent
+  model_steps s_new timing_check t_new trun expected_closes.
